@@ -130,6 +130,30 @@ func c11Pool(ev *vlib.Evidence, driver string, idx int) (nontrivial, conclusive 
 		switch k := r.Intn(10); {
 		case k < 3 && len(registered) > 0:
 			inject(registered[r.Intn(len(registered))], c11Ages[r.Intn(len(c11Ages))])
+		case k == 4 && len(registered) > 0 && r.Intn(2) == 0:
+			// a peer reconnects (new connection, same identity): that is a check-in too
+			p := registered[r.Intn(len(registered))]
+			t0 := time.Now()
+			wasHost := model.Nodes[p.NodeID].Node.IsHost
+			conns[p.NodeID].Close()
+			var c *vlib.Conn
+			var err error
+			if wasHost {
+				c, err = w.ConnectHost(p, "geth", fmt.Sprintf("192.0.2.%d:4000", 60+s))
+			} else {
+				c, err = w.ConnectClient(p, "geth", "192.0.2.9:4000")
+			}
+			if err != nil {
+				ev.Violate("pool:connect-failed", map[string]interface{}{"driver": driver, "index": idx, "err": err.Error(), "trace": trace})
+				return false, true, ""
+			}
+			conns[p.NodeID] = c
+			if n, err := w.RawStore.GetNode(store.NodeID(p.NodeID)); err == nil {
+				uri[p.NodeID] = n.URI
+			}
+			mn := model.Nodes[p.NodeID]
+			mn.Node.LastSeen, mn.SeenLo, mn.SeenHi = t0, t0, time.Now()
+			trace = append(trace, "reconnect "+p.Name)
 		case k < 4 && len(registered) > 0:
 			// a peer checks in itself
 			p := registered[r.Intn(len(registered))]
